@@ -41,4 +41,87 @@ Section ReadSlotP.
   Proof.
     unfold read_contract. destruct (exec s empty_journal i) as [[o j]| |]; cbn; try discriminate. reflexivity.
   Qed.
+
+  (* ---------- whole histories (C10) ---------- *)
+  Context {WOut : Type}.
+  Variable wr : S -> N -> S * WOut.
+
+  Notation serve := (serve empty_journal exec wr).
+  Notation history := (history empty_journal exec wr).
+
+  Lemma serve_read_pure s r :
+    no_panic -> is_write r = false -> fst (serve (Present s) r) = Present s.
+  Proof.
+    intros Hnp Hr. destruct r as [w|i|calls|runs]; cbn [is_write] in Hr; try discriminate; cbn [serve].
+    - pose proof (read_contract_pure s i Hnp) as H.
+      destruct (read_contract empty_journal exec (Present s) i) as [sl o]. exact H.
+    - pose proof (read_contract_multi_pure s calls Hnp) as H.
+      destruct (read_contract_multi empty_journal exec (Present s) calls) as [sl o]. exact H.
+    - cbn [fst]. apply estimate_gas_pure. exact Hnp.
+  Qed.
+
+  Lemma serve_read_not_write_ans sl r : is_write r = false -> is_write_ans (snd (serve sl r)) = false.
+  Proof.
+    intros Hr. destruct r as [w|i|calls|runs]; cbn [is_write] in Hr; try discriminate; cbn [serve].
+    - destruct (read_contract empty_journal exec sl i); reflexivity.
+    - destruct (read_contract_multi empty_journal exec sl calls); reflexivity.
+    - reflexivity.
+  Qed.
+
+  Lemma serve_write_is_write_ans sl r : is_write r = true -> is_write_ans (snd (serve sl r)) = true.
+  Proof.
+    intros Hr. destruct r as [w|i|calls|runs]; cbn [is_write] in Hr; try discriminate; cbn [serve].
+    destruct sl as [s|]; [destruct (wr s w)|]; reflexivity.
+  Qed.
+
+  (* The history with arbitrary read requests interleaved leaves the same store, and gives
+     the same answers to the write calls, as the history without them. *)
+  Theorem reads_erasable rs : forall s,
+    no_panic ->
+    fst (history (Present s) rs) = fst (history (Present s) (filter is_write rs)) /\
+    filter is_write_ans (snd (history (Present s) rs)) = snd (history (Present s) (filter is_write rs)).
+  Proof.
+    induction rs as [|r rest IH]; intros s Hnp; [split; reflexivity|].
+    cbn [filter]. destruct (is_write r) eqn:Hr.
+    - (* a write: both histories perform it on the same store *)
+      cbn [ReadSlot.history]. pose proof (serve_write_is_write_ans (Present s) r Hr) as Ha.
+      destruct r as [w|i|calls|runs]; cbn [is_write] in Hr; try discriminate.
+      cbn [serve] in *. destruct (wr s w) as [s' o].
+      destruct (IH s' Hnp) as [IH1 IH2].
+      destruct (history (Present s') rest) as [sl2 az].
+      destruct (history (Present s') (filter is_write rest)) as [sl2' az'].
+      cbn [fst snd filter is_write_ans] in *. split; [exact IH1|]. rewrite IH2. reflexivity.
+    - (* a read: the store is back in its slot; its answer is dropped *)
+      cbn [ReadSlot.history].
+      pose proof (serve_read_pure s r Hnp Hr) as Hs.
+      pose proof (serve_read_not_write_ans (Present s) r Hr) as Ha.
+      destruct (serve (Present s) r) as [sl1 a]. cbn [fst snd] in Hs, Ha. subst sl1.
+      destruct (IH s Hnp) as [IH1 IH2].
+      destruct (history (Present s) rest) as [sl2 az]. cbn [fst snd filter] in *.
+      rewrite Ha. split; assumption.
+  Qed.
+
+  (* ... and no request of any history ever finds the slot empty: nothing wedges *)
+  Theorem history_slot_present rs : forall s,
+    no_panic -> exists s', fst (history (Present s) rs) = Present s'.
+  Proof.
+    induction rs as [|r rest IH]; intros s Hnp; [exists s; reflexivity|].
+    cbn [ReadSlot.history].
+    assert (H1 : exists s1, fst (serve (Present s) r) = Present s1).
+    { destruct (is_write r) eqn:Hr.
+      - destruct r as [w|i|calls|runs]; cbn [is_write] in Hr; try discriminate.
+        cbn [serve]. destruct (wr s w) as [s' o]. exists s'. reflexivity.
+      - exists s. apply serve_read_pure; assumption. }
+    destruct H1 as [s1 H1]. destruct (serve (Present s) r) as [sl1 a]. cbn [fst] in H1. subst sl1.
+    destruct (IH s1 Hnp) as [s' Hs']. destruct (history (Present s1) rest) as [sl2 az].
+    exists s'. exact Hs'.
+  Qed.
+
+  (* the answer to a read request is a function of the store the preceding WRITES built:
+     serving a read after a history equals serving it after the read-free history *)
+  Theorem read_answer_independent_of_other_reads rs r s :
+    no_panic ->
+    snd (serve (fst (history (Present s) rs)) r)
+    = snd (serve (fst (history (Present s) (filter is_write rs))) r).
+  Proof. intros Hnp. rewrite (proj1 (reads_erasable rs s Hnp)). reflexivity. Qed.
 End ReadSlotP.
